@@ -11,7 +11,7 @@ PROPERTY = "C12"
 META = {
     "bounds": {
         "quick": {"tweak": "all internal keys d in [1,N-1] (both parities), merkle root absent or any 32 bytes",
-                  "tree": "all binary tree shapes with 1..4 leaves, leaf scripts = one symbolic push of 1..2 bytes + an opcode, leaf version 0xC0 (and 0xC2 for n <= 2) shared by the leaves, "
+                  "tree": "all binary tree shapes with 1..4 leaves, leaf scripts = one symbolic push of 1..2 bytes + an opcode, leaf version 0xC0 (and 0xC2, 0xC4, 0xFE for n <= 2) shared by the leaves; for n in {2,3} also the same script under two versions, "
                           "pairwise different leaf scripts; every leaf of every tree",
                   "tamper": "byte positions {0,1,16,32,33,64,65,96} (version/parity byte, first/middle/last byte of the internal key and of each path hash) of a 97-byte control block of a 3-leaf tree, replacement value symbolic"},
         "thorough": {"tree": "all shapes with 1..6 leaves", "tamper": "every byte position 0..96"}},
@@ -152,7 +152,7 @@ def mirror(shape):
 
 
 @with_env("taproot", "script")
-def _tree_path(e, shape, n, ver=0xC0):
+def _tree_path(e, shape, n, ver=0xC0, dup=False):
     tm = loader.load("taproot")
     sc = loader.load("script")
     F = e.fld
@@ -162,9 +162,13 @@ def _tree_path(e, shape, n, ver=0xC0):
     # leaves with ==, and every undecided equality would double the number of paths
     versions = [ver for i in range(n)]
     pushes = [SBytes.sym(f"leaf{i}", 1 + (i % 2)) for i in range(n)]
+    if dup and n >= 2:
+        # the same script committed under two different leaf versions (leaves 0 and 1)
+        pushes[1] = pushes[0]
+        versions[1] = 0xC2 if ver != 0xC2 else 0xC0
     for i in range(n):
         for j in range(i + 1, n):
-            if len(pushes[i]) == len(pushes[j]):
+            if len(pushes[i]) == len(pushes[j]) and pushes[i] is not pushes[j]:
                 assume(pushes[i] != pushes[j])
     scripts = [sc.Script([pushes[i], 0xAC]) for i in range(n)]
     leaves = [tm.TapLeaf(scripts[i], versions[i]) for i in range(n)]
@@ -215,7 +219,10 @@ def _tree_path(e, shape, n, ver=0xC0):
 
 def ob_tree(n, part=0, parts=1):
     shs = [sh for k, sh in enumerate(shapes(n)) if k % parts == part]
-    runs = [sym_run(lambda: _tree_path(sh, n, ver), mode="int", timeout_ms=60000, max_paths=3000) for sh in shs for ver in ((0xC0, 0xC2) if n <= 2 else (0xC0,))]
+    runs = [sym_run(lambda: _tree_path(sh, n, ver), mode="int", timeout_ms=60000, max_paths=3000) for sh in shs
+            for ver in ((0xC0, 0xC2, 0xC4, 0xFE) if n <= 2 else (0xC0,))]
+    if 2 <= n <= 3:
+        runs += [sym_run(lambda: _tree_path(sh, n, 0xC0, dup=True), mode="int", timeout_ms=60000, max_paths=3000) for sh in shs]
     m = merge_runs(runs)
     m["sample"] = {"leaves": n, "shapes": len(shapes(n)), "leaf scripts": "<1-2 symbolic bytes> OP_CHECKSIG, symbolic even versions"}
     return m
@@ -296,7 +303,7 @@ def _tamper_path(e, pos):
     items = list(ser.items)
     items[pos] = nv
     alt = SBytes(items)
-    wit = lambda env: {"pos": pos, "new": env["newbyte"]}  # noqa
+    wit = lambda env: {"pos": pos, "new": env["newbyte"], "d": env["d"], "pushes": [bytes_env(env, f"leaf{i}", 1).hex() for i in range(3)]}  # noqa
     try:
         back = tm.ControlBlock.parse(alt)
     except ValueError:
@@ -315,7 +322,21 @@ def ob_tamper(positions):
 
 
 def replay_tamper(w):
-    return {"violated": False, "observed": "structural obligation (no concrete recipe)"}
+    """real keys and hashes: alter the byte; the alteration must be refused by parse or show up in the parsed commitment inputs"""
+    from buidl import pecc, taproot, script
+    Pp = w["d"] * pecc.G
+    scripts = [script.Script([bytes.fromhex(x), 0xAC]) for x in w["pushes"]]
+    leaves = [taproot.TapLeaf(sc_, 0xC0) for sc_ in scripts]
+    tree = taproot.TapBranch(leaves[0], taproot.TapBranch(leaves[1], leaves[2]))
+    ser = tree.control_block(Pp, leaves[1]).serialize()
+    new = w["new"] if w["new"] != ser[w["pos"]] else (w["new"] ^ 4)
+    alt = ser[:w["pos"]] + bytes([new]) + ser[w["pos"] + 1:]
+    try:
+        back = taproot.ControlBlock.parse(alt)
+    except ValueError:
+        return {"violated": False, "observed": "rejected"}
+    same = back.serialize() == ser
+    return {"violated": same, "observed": f"byte {w['pos']} {ser[w['pos']]:#x} -> {new:#x}: parses, and re-serialises {'to the ORIGINAL bytes' if same else 'differently'}"}
 
 
 def obligations(tier):
